@@ -467,6 +467,48 @@ def scene_anon(c):
     c.labels.add("anonymous-members")
 
 
+SS_DECLS = ["sizeof(enum { %(n)s = %(v)d })", "(int)(enum { %(n)s = %(v)d })%(v)d", "_Alignof(enum { %(n)s = %(v)d }) * %(v)d / _Alignof(int)",
+            "sizeof(struct %(t)s { char c[%(v)d]; })", "sizeof *(struct %(t)s { char c[%(v)d]; } *)0", "sizeof (struct %(t)s { char c[%(v)d]; }){ { 0 } }",
+            "sizeof(union %(t)s { char c[%(v)d]; int i; })", "sizeof(typeof(enum { %(n)s = %(v)d }))"]
+# {D}: an expression whose type name declares an enumeration constant or a tag spelled like an outer one; {U}: a use of the name.
+# Selection and iteration statements and their substatements are blocks (6.8.4p3, 6.8.5p5): nothing they declare outlives them.
+SS_SHAPES = ["do k++; while (k < (int)({D}) && k < 6);", "do {{ k++; }} while (({D}), k < 3);", "do k += (int)({D}) > 0; while (k < {U});",
+             "while (k < (int)({D}) && k < 5) k++;", "for (; k < (int)({D}) && k < 7; k++) ;", "if ((int)({D}) > k) k += 2; else k += 3;",
+             "switch ((int)({D}) > 2) {{ case 1: k += 4; break; default: k += 5; }}", "for (k = (int)({D}) > 0; k < 4; k++) ;",
+             "do do k++; while (k < (int)({D}) && k < 4); while (k < {U});", "for (;; k += (int)({D}) > 0) {{ if (k >= 5) break; }}",
+             "if (k) ; else k += (int)({D}) > 1;", "do k++; while (k < 2 + 0 * (int)({D}));"]
+
+
+def scene_stmt_scope(c):
+    """Names declared by a type name inside a controlling expression or a substatement go out of scope with the statement; the outer
+    declaration of the same spelling is visible again afterwards (and inside the part of the statement that precedes the declaration)."""
+    d = c.draw
+    f = c.uid("ssc")
+    outer_file = d(st.booleans())
+    lines = ["int k = 0;"]
+    ov = d(st.integers(1, 9))
+    decls = "enum { %s_N = %d }; struct %s_t { char c[%d]; }; union %s_t2 { char c[%d]; };" % (f, ov, f, ov, f, ov)
+    if not outer_file:
+        lines.append(decls)
+    for _ in range(d(st.integers(1, 4))):
+        dec = d(st.sampled_from(SS_DECLS))
+        v = d(st.integers(2, 40))
+        tag = f + ("_t2" if "union" in dec else "_t")
+        dtxt = dec % {"n": f + "_N", "t": tag, "v": v}
+        use = "%s_N" % f if "enum" in dec else "(int)sizeof(%s %s)" % ("union" if "union" in dec else "struct", tag)
+        sh = d(st.sampled_from(SS_SHAPES)).replace("{D}", dtxt).replace("{U}", use).replace("{{", "{").replace("}}", "}")
+        if d(st.integers(0, 3)) == 0:
+            sh = "{ %s chk_i64(%s); }" % (sh, use)
+        lines.append("k = 0; " + sh)
+        lines.append("chk_i64(k); chk_i64(%s);" % use)
+        if d(st.integers(0, 2)) == 0:
+            # the tag or constant can be declared afresh in the enclosing block only if the statement did not leak its own
+            lines.append("{ %s; chk_i64(%s); }" % (("enum { %s_N = %d }" % (f, v + 1)) if "enum" in dec else "%s %s { char c[%d]; }" % ("union" if "union" in dec else "struct", tag, v + 1), use))
+    c.funcs.append("%s\nstatic void %s(void) {\n\t%s\n}" % (decls if outer_file else "", f, "\n\t".join(lines)))
+    c.calls.append("%s();" % f)
+    c.labels.add("statement-scope-declarations")
+
+
 def scene_alloca(c):
     """Blocks from alloca live until the function returns: a call site executed several times (loop, backward goto) hands
     out a fresh block each time, whatever the form of the size expression."""
@@ -579,7 +621,7 @@ def scene_float(c):
 
 
 SCENES = [scene_struct_copy, scene_struct_copy, scene_init, scene_init, scene_control, scene_calls, scene_calls,
-          scene_vla, scene_pointers, scene_statics, scene_arith_loop, scene_float, scene_alloca, scene_anon, scene_aligned_copy]
+          scene_vla, scene_pointers, scene_statics, scene_arith_loop, scene_float, scene_alloca, scene_anon, scene_aligned_copy, scene_stmt_scope]
 
 
 @st.composite
